@@ -459,6 +459,6 @@ SUBS = [
                       'authorizer:rolled-back', 'trigger:rolled-back',
                       'op:remove')),
     Sub('faults-all-positions', oracle_all, _classify,
-        strategy=lambda tier: _cases(), budget={'quick': 4, 'thorough': 40},
+        strategy=lambda tier: _cases(), budget={'quick': 4, 'thorough': 100},
         fingerprint=_fp, sample=_sample, purge_every=1),
 ]
